@@ -7,11 +7,12 @@ Writes /verif/seeded/<id>-<k>/{patch.diff,demo.py,notes.md,meta.json}; removes t
 import json, os, shutil, subprocess, sys, xml.etree.ElementTree as ET
 
 pid, k = sys.argv[1], sys.argv[2]
-src = "/tmp/seed/%s/%s" % (pid, k)
-dst = "/verif/seeded/%s-%s" % (pid, k)
+wave = int(os.environ.get("SEED_WAVE", "1"))  # wave n reads /tmp/seed<n>/<id>/<k> and names the result <id>-<k+3(n-1)>
+src = "/tmp/seed%s/%s/%s" % ("" if wave == 1 else wave, pid, k)
+dst = "/verif/seeded/%s-%d" % (pid, int(k) + 3 * (wave - 1))
 wt = "/tmp/cw/%s_%s" % (pid, k)
 ext_m = wt + "_ext"
-ext_c = "/tmp/cw/clean_ext"
+ext_c = "/tmp/cw/clean_ext_" + subprocess.run("git -C /repo rev-parse --short HEAD:c", shell=True, capture_output=True, text=True).stdout.strip()
 os.makedirs("/tmp/cw", exist_ok=True)
 base = json.load(open("/root/.vp/BASELINE.json"))
 stable = set(base["stable_pass"])
